@@ -288,6 +288,13 @@ func contract(g *SX, v any) string {
 	return ""
 }
 
+func neq[V comparable](got, want V) string {
+	if got != want {
+		return fmt.Sprintf("%v, the only allowed value is %v", got, want)
+	}
+	return ""
+}
+
 // draw from a native generator on a stream, reporting contract violations, internal
 // assertion failures and hangs
 func nativeDraw[V any](name string, g *rapid.Generator[V], ws []uint64, usePRNG bool, seed uint64, check func(V) string) (what string, invalid bool) {
@@ -537,6 +544,35 @@ func init() {
 				report("sized-int", what, map[string]string{"words": joinU64(ws), "prng": fmt.Sprint(usePRNG), "seed": fmt.Sprint(seed)})
 			}
 		}
+		// one-point domains at the extremes of every kind: the only allowed value, no assertion
+		{
+			ws := r.words(8)
+			seed := r.u64()
+			pt := func(what string, invalid bool) {
+				m.tag("kind-extreme")
+				m.eval(what+fmt.Sprint(seed), !invalid)
+				if what != "" {
+					report("sized-int", what, map[string]string{"words": joinU64(ws), "prng": "false", "seed": fmt.Sprint(seed)})
+				}
+			}
+			pt(nativeDraw("Int8Max(MinInt8)", rapid.Int8Max(math.MinInt8), ws, false, seed, func(v int8) string { return neq(v, int8(math.MinInt8)) }))
+			pt(nativeDraw("Int8Min(MaxInt8)", rapid.Int8Min(math.MaxInt8), ws, false, seed, func(v int8) string { return neq(v, int8(math.MaxInt8)) }))
+			pt(nativeDraw("Int16Max(MinInt16)", rapid.Int16Max(math.MinInt16), ws, false, seed, func(v int16) string { return neq(v, int16(math.MinInt16)) }))
+			pt(nativeDraw("Int16Min(MaxInt16)", rapid.Int16Min(math.MaxInt16), ws, false, seed, func(v int16) string { return neq(v, int16(math.MaxInt16)) }))
+			pt(nativeDraw("Int32Max(MinInt32)", rapid.Int32Max(math.MinInt32), ws, false, seed, func(v int32) string { return neq(v, int32(math.MinInt32)) }))
+			pt(nativeDraw("Int32Min(MaxInt32)", rapid.Int32Min(math.MaxInt32), ws, false, seed, func(v int32) string { return neq(v, int32(math.MaxInt32)) }))
+			pt(nativeDraw("Int64Max(MinInt64)", rapid.Int64Max(math.MinInt64), ws, false, seed, func(v int64) string { return neq(v, int64(math.MinInt64)) }))
+			pt(nativeDraw("Int64Min(MaxInt64)", rapid.Int64Min(math.MaxInt64), ws, false, seed, func(v int64) string { return neq(v, int64(math.MaxInt64)) }))
+			pt(nativeDraw("IntMax(MinInt)", rapid.IntMax(math.MinInt), ws, false, seed, func(v int) string { return neq(v, math.MinInt) }))
+			pt(nativeDraw("IntMin(MaxInt)", rapid.IntMin(math.MaxInt), ws, false, seed, func(v int) string { return neq(v, math.MaxInt) }))
+			pt(nativeDraw("Uint8Min(MaxUint8)", rapid.Uint8Min(math.MaxUint8), ws, false, seed, func(v uint8) string { return neq(v, uint8(math.MaxUint8)) }))
+			pt(nativeDraw("Uint16Min(MaxUint16)", rapid.Uint16Min(math.MaxUint16), ws, false, seed, func(v uint16) string { return neq(v, uint16(math.MaxUint16)) }))
+			pt(nativeDraw("Uint32Min(MaxUint32)", rapid.Uint32Min(math.MaxUint32), ws, false, seed, func(v uint32) string { return neq(v, uint32(math.MaxUint32)) }))
+			pt(nativeDraw("Uint64Min(MaxUint64)", rapid.Uint64Min(math.MaxUint64), ws, false, seed, func(v uint64) string { return neq(v, uint64(math.MaxUint64)) }))
+			pt(nativeDraw("UintMin(MaxUint)", rapid.UintMin(math.MaxUint), ws, false, seed, func(v uint) string { return neq(v, uint(math.MaxUint)) }))
+			pt(nativeDraw("ByteMin(255)", rapid.ByteMin(255), ws, false, seed, func(v byte) string { return neq(v, byte(255)) }))
+			pt(nativeDraw("Uint32Max(0)", rapid.Uint32Max(0), ws, false, seed, func(v uint32) string { return neq(v, uint32(0)) }))
+		}
 		// strings, regexps, Make
 		exprs := []string{`[a-z]{2,5}`, `^\d+$`, `(?i)abc|xyz`, `\w*\s?\pL+`, `a.c`, `^$`, `[^\n]{0,3}\b`, `(foo|ba[rz])+`, `\x00[\x{10000}-\x{10FFFF}]?`}
 		for i := 0; i < 300*scale; i++ {
@@ -785,6 +821,15 @@ func init() {
 				continue
 			}
 			kind, _, _ := verdictMsg(run.verdict)
+			if kind == "flaky" {
+				// the property is a deterministic function of its draws: "flaky" means minimization
+				// ended at a failure with another traceback than the one it started from
+				p := flagsStr(fl)
+				p["prog"] = prog.String()
+				m.eval(prog.String()+fmt.Sprint(fl.Seed), true)
+				m.violate(violation{"C05", "site", "minimization moved to a different failure: deterministic property reported as flaky: " + run.verdict, p})
+				continue
+			}
 			if kind != "failed" && kind != "panic" {
 				m.eval(prog.String()+fmt.Sprint(fl.Seed), false)
 				continue
